@@ -582,7 +582,7 @@ def run_scan(env, case):
 
 # --------------------------------------------------------------------------------------------------------------
 TESTS = [
-    Test("history", history_case, run_history, quick=120, thorough=4000,
+    Test("history", history_case, run_history, quick=300, thorough=4000,
          cfgs={"quick": ["prod", "vsan"], "thorough": ["prod", "vsan"]},
          must_cover=["op:create", "op:pcreate", "op:clone", "op:pclone", "op:rand", "op:randnull", "op:sha", "op:destroy",
                      "probe:randomized+cloned", "probe:own_sha256", "randomized>=2x", "clone_of_randomized", "clone_with_own_sha256", "probe:prealloc"]),
@@ -590,11 +590,11 @@ TESTS = [
     Test("history_cfg", history_case, run_history, quick=24, thorough=600,
          cfgs={"quick": ["struct", "int64"], "thorough": ["struct", "int64", "noasm"]}, max_workers=2,
          must_cover=["probe:randomized+cloned", "randomized>=2x"]),
-    Test("static_real", lambda: static_case, run_static_real, quick=40, thorough=1000, cfgs={"quick": ["extcb"], "thorough": ["extcb"]},
+    Test("static_real", lambda: static_case, run_static_real, quick=100, thorough=1000, cfgs={"quick": ["extcb"], "thorough": ["extcb"]},
          must_cover=["strong:same", "not_static:illegal+ret0"], max_workers=4),
-    Test("static_copy", lambda: static_case, run_static_copy, quick=40, thorough=1000, cfgs={"quick": ["prod", "vsan"], "thorough": ["prod", "vsan", "int64"]},
+    Test("static_copy", lambda: static_case, run_static_copy, quick=100, thorough=1000, cfgs={"quick": ["prod", "vsan"], "thorough": ["prod", "vsan", "int64"]},
          must_cover=["strong:same", "not_static:illegal+ret0"], max_workers=4),
-    Test("threads", thread_case, run_threads, quick=100, thorough=3000, cfgs={"quick": ["prod"], "thorough": ["prod"]}, setup=_tsan_setup,
+    Test("threads", thread_case, run_threads, quick=250, thorough=3000, cfgs={"quick": ["prod"], "thorough": ["prod"]}, setup=_tsan_setup,
          must_cover=["threads=2", "threads=9-16", "ctx=prealloc", "prep:0", "prep:2", "prep:4"] + ["shared:" + f for f in FAMILIES]),
     Test("symbols", scan_cases, run_scan, kind="enum", cfgs={"quick": ["prod"], "thorough": ["prod"]}, max_workers=1,
          must_cover=["scanned:secp256k1", "scanned:precomputed_ecmult", "scanned:precomputed_ecmult_gen", "allowed:secp256k1_generator_h"]),
